@@ -465,6 +465,10 @@ func genXW(r *Rand, tier string, emit func(string)) {
 		d := append(r.Bytes(r.Intn(60)), inner...)
 		emit(fmtXwLine(xwCfg{level: -1, chunk: int64(r.Pick([]int{0, 50, 1000})), index: 0}, "-", []xwOp{{kind: 'W', data: d}, {kind: 'W', data: r.Bytes(r.Intn(30))}}, []string{"C"}))
 	}
+	// chunks whose compressed size is just past a multiple of the reader's 4096-byte reads
+	for c := int64(4085); c <= 4091; c++ {
+		emit(fmtXwLine(xwCfg{level: []int{0, 1, 6}[c%3], chunk: c, index: 0}, "-", []xwOp{{kind: 'W', data: r.Bytes(int(c) + 300)}}, []string{"C"}))
+	}
 	// sink faults at every position of short outputs
 	nf := 25
 	if thorough {
